@@ -7,6 +7,7 @@ package influxql
 
 // Package-level variables that are assigned once by their initialisers.
 //@ globalinv ErrInvalidDuration != nil
+//@ globalinv errBadString != nil && errBadEscape != nil && errBadString != errBadEscape
 
 // ---------------------------------------------------------------- C03 tables
 
@@ -36,5 +37,71 @@ package influxql
 //@   loop 1 invariant 0 <= i && i <= len(a) && d >= 0 && (!overflow ==> !ovf())
 //@   loop 1 step !overflow ==> ((spec_unitAt(a, old(i), i, i-1) && d - old(d) == n * spec_unitVal(a, i-1)) || (spec_unitAt(a, old(i), i, i-2) && d - old(d) == n * spec_unitVal(a, i-2)))
 //@   loop 1 decreases len(a) - i
+//@   loop 1 probe n
+//@   loop 1 probe a[i-1]
+//@   loop 1 probe ite(i >= 2, a[i-2], 0)
 //@   loop 2 invariant start <= i && i <= len(a) && 0 <= start && (i > start ==> isDigit(a[start]) && isDigit(a[i-1])) && (!overflow ==> !ovf())
 //@   loop 2 decreases len(a) - i
+
+//@ func FormatDuration
+//@   props C08
+//@   safety C08
+//@   ensures result == spec_formatDuration(d)
+
+// the unit chosen by the formatter divides d, is the largest unit that does,
+// and the printed count times the unit is d again without overflow:
+//@ lemma fmtUnitDivides [C08] forall d int64 :: d != 0 ==> spec_isUnit(spec_fmtUnit(d)) && d % spec_fmtUnit(d) == 0
+//@ lemma fmtUnitLargest [C08] forall d int64, u int64 :: d != 0 && spec_isUnit(u) && d % u == 0 ==> u <= spec_fmtUnit(d)
+//@ lemma fmtRoundTrip [C08] forall d int64 :: d != 0 && d != MinInt64 ==> (d / spec_fmtUnit(d)) * spec_fmtUnit(d) == d && -(d / spec_fmtUnit(d)) <= MaxInt64 && (d / spec_fmtUnit(d)) <= MaxInt64
+
+// ---------------------------------------------------------------- C06 quoting
+
+//@ func isWhitespace
+//@   props C06 C05 C16
+//@   ensures result == spec_isWhitespace(ch)
+//@ func isLetter
+//@   props C06 C05
+//@   ensures result == spec_isLetter(ch)
+//@ func isDigit
+//@   props C06 C05 C08
+//@   ensures result == spec_isDigit(ch)
+//@ func isIdentChar
+//@   props C06 C05
+//@   ensures result == spec_isIdentChar(ch)
+//@ func isIdentFirstChar
+//@   props C06
+//@   ensures result == spec_isIdentFirst(ch)
+
+// escaper tables, read from the initialisers of the two replacers
+//@ replacer qsReplacer [C06] quote '\''
+//@ replacer qiReplacer [C06] quote '"'
+
+// ScanString: rune stream (rsin r k), cursor rscur(r); the opening delimiter is the first rune read.
+//@ func ScanString
+//@   props C06
+//@   safety C06 C04
+//@   let q = rsin(r, entry(rscur(r)))
+//@   let k = rscur(r)
+//@   requires r != nil
+//@   requires forallint(j, 0 <= j && j < rslen(r) ==> rsin(r, j) != 0)
+//@   loop 1 invariant rscur(r) > entry(rscur(r)) && entry(rscur(r)) >= 0 && entry(rscur(r)) < rslen(r) && q != 0
+//@   loop 1 step spec_scanKind(q, rsin(r, old(k)), rsin(r, old(k)+1)) == 0
+//@   loop 1 step k == old(k) + spec_scanLen(rsin(r, old(k)))
+//@   loop 1 step content(buf) == scat(old(content(buf)), srune(spec_scanRune(rsin(r, old(k)), rsin(r, old(k)+1))))
+//@   ensures result1 == nil ==> k >= old(k) + 2 && spec_scanKind(q, rsin(r, k-1), 0) == 1
+
+// per-rune lemmas: the scanner step inverts the escaper and cannot be terminated by escaped text
+//@ lemma escScanInverse2 [C06] forall q rune, c rune :: (q == '\'' || q == '"') && c != 0 && spec_escSecond(q, c) != 0 ==>
+//@     | spec_scanKind(q, spec_escFirst(q, c), spec_escSecond(q, c)) == 0 && spec_scanRune(spec_escFirst(q, c), spec_escSecond(q, c)) == c && spec_scanLen(spec_escFirst(q, c)) == spec_escLen(q, c)
+//@ lemma escScanInverse1 [C06] forall q rune, c rune, x rune :: (q == '\'' || q == '"') && c != 0 && spec_escSecond(q, c) == 0 ==>
+//@     | spec_scanKind(q, spec_escFirst(q, c), x) == 0 && spec_scanRune(spec_escFirst(q, c), x) == c && spec_scanLen(spec_escFirst(q, c)) == spec_escLen(q, c)
+//@ lemma escNoBreakout [C06] forall q rune, c rune, x rune :: (q == '\'' || q == '"') ==>
+//@     | spec_scanKind(q, spec_escFirst(q, c), ite(spec_escSecond(q, c) != 0, spec_escSecond(q, c), x)) != 1 && spec_scanKind(q, spec_escFirst(q, c), ite(spec_escSecond(q, c) != 0, spec_escSecond(q, c), x)) != 3
+//@ lemma escConsumesOnlyItself [C06] forall q rune, c rune, x rune :: (q == '\'' || q == '"') && spec_scanKind(q, spec_escFirst(q, c), ite(spec_escSecond(q, c) != 0, spec_escSecond(q, c), x)) == 0 ==>
+//@     | spec_scanLen(spec_escFirst(q, c)) == spec_escLen(q, c)
+//@ lemma quoteTerminates [C06] forall q rune, x rune :: q != 0 && q != '\n' ==> spec_scanKind(q, q, x) == 1
+
+//@ func QuoteString
+//@   props C06
+//@   safety C06
+//@   ensures result == scat(scat("'", smt("lib__Pstrings_Replacer__Replace_0", qsReplacer, s)), "'")
